@@ -23,7 +23,7 @@ func init() {
 		[]string{"gRPC writes only through the net.Conn returned by the TransportCredentials handshake"},
 		runC05)
 	register("C11",
-		"EXCL: in Server.Accept and Client.Dial every path to a successful return on which a previous connection existed passes a receive on that connection's Done() channel (Accept: or returns io.EOF on quit); Done() returns the quit field, which the once-guarded Close closes on every path and only after the gbn connection and both relay streams have been released. SIDFRESH: both functions call connData.SID() on every invocation after that wait and before constructing; the sid handed to NewServerConn/NewClientConn is that fresh value (directly or through a dominating store to the sid field); on the leg 'sid changed and a previous connection exists' the old connection is stopped/closed and forgotten on every path from there on (no return and no Refresh in between), so the New constructor (not Refresh) runs - Refresh only under 'previous connection exists'; ConnData.SID and HandshakePattern branch on the same remoteKey != nil predicate and SetRemote stores the key; DoHandshake publishes the remote key for version >= 2 (C04 PUBLISH, re-checked). FRESH: RefreshServerConn/RefreshClientConn return a newly allocated connection with a newly allocated connKit, neither filled by a whole-struct copy of the closed connection; quit is a new channel, gbnConn the result of a new gbn.New*Conn, connKit.impl the new connection, and closeOnce / recvBuffer / read and write deadlines stay at their zero value (no unread bytes, closed channel or spent Once of the closed connection reach the connection handed out next). SIDFRESH also: ConnData.SetRemote stores the key on every successful return and on no failing one; every handshake machine is configured with its own connection data's HandshakePattern(), which returns XX exactly while no remote key is stored and KK afterwards. RETRY also: the client's create*MailBox return only under a successful Connect* or from their quit/ctx cases. DUPLEX callback locks: the relay operation of each of the four gbn callbacks runs under an exclusive mutex, and the send and the receive callback of one connection hold different mutexes (full duplex). EXCL also: temporaryError.Temporary is the constant true and Accept returns the constructors' errors wrapped in it (a failed attempt never ends the grpc accept loop). RETRY (as C05): the server re-creates the mailbox before every attempt to open its stream. SIDFRESH also: the remembered and the fresh SID are compared over all 64 bytes. RETRY also: initAccountCipherBox precedes every RecvStream/SendStream attempt of the server. The obligations of C12 (blocked calls are woken on shutdown) are imported as LAYER/C12. LOCKBAL (as C05) and the transport adapter rules T-3/T-4 (socket errors reported, Refresh without the old streams) are shared. FRAME/RETRY/FRESH transport adapters: every CipherBox sent carries the payload as Msg, the Msg of the received box is what gbn gets, socket/stream errors are reported, Refresh() leaves the connected-ness fields unset. WRAP also: a handshake read deadline is cleared on every success path and connKit maps the zero deadline to never (MaxInt64) on the timeout setter of its own direction. Not decided: behaviour over sequences of connect/close/relay-failure events; that a client knowing only the passphrase is rejected after pairing (follows cryptographically from the KK pattern, C03).",
+		"EXCL: in Server.Accept and Client.Dial every path to a successful return on which a previous connection existed passes a receive on that connection's Done() channel (Accept: or returns io.EOF on quit); Done() returns the quit field, which the once-guarded Close closes on every path and only after the gbn connection and both relay streams have been released. SIDFRESH: both functions call connData.SID() on every invocation after that wait and before constructing; the sid handed to NewServerConn/NewClientConn is that fresh value (directly or through a dominating store to the sid field); on the leg 'sid changed and a previous connection exists' the old connection is stopped/closed and forgotten on every path from there on (no return and no Refresh in between), so the New constructor (not Refresh) runs - Refresh only under 'previous connection exists'; ConnData.SID and HandshakePattern branch on the same remoteKey != nil predicate and SetRemote stores the key; DoHandshake publishes the remote key for version >= 2 (C04 PUBLISH, re-checked). FRESH: RefreshServerConn/RefreshClientConn return a newly allocated connection with a newly allocated connKit, neither filled by a whole-struct copy of the closed connection; quit is a new channel, gbnConn the result of a new gbn.New*Conn, connKit.impl the new connection, and closeOnce / recvBuffer / read and write deadlines stay at their zero value (no unread bytes, closed channel or spent Once of the closed connection reach the connection handed out next). SIDFRESH also: ConnData.SetRemote stores the key on every successful return and on no failing one; every handshake machine is configured with its own connection data's HandshakePattern(), which returns XX exactly while no remote key is stored and KK afterwards. RETRY also: the client's create*MailBox return only under a successful Connect* or from their quit/ctx cases. DUPLEX callback locks: the relay operation of each of the four gbn callbacks runs under an exclusive mutex, and the send and the receive callback of one connection hold different mutexes (full duplex). EXCL also: temporaryError.Temporary is the constant true and Accept returns the constructors' errors wrapped in it (a failed attempt never ends the grpc accept loop). RETRY (as C05): the server re-creates the mailbox before every attempt to open its stream. SIDFRESH also: the remembered and the fresh SID are compared over all 64 bytes. RETRY also: initAccountCipherBox precedes every RecvStream/SendStream attempt of the server. The obligations of C12 (blocked calls are woken on shutdown) are imported as LAYER/C12. LOCKBAL (as C05) and the transport adapter rules T-3/T-4 (socket errors reported, Refresh without the old streams) are shared. FRAME/RETRY/FRESH transport adapters: every CipherBox sent carries the payload as Msg, the Msg of the received box is what gbn gets, socket/stream errors are reported, Refresh() leaves the connected-ness fields unset. WRAP also: a handshake read deadline is cleared on every success path and connKit maps the zero deadline to never (MaxInt64) on the timeout setter of its own direction. The obligations of C12 are imported (the next connection is handed out only after Close of the old one returned). Not decided: behaviour over sequences of connect/close/relay-failure events; that a client knowing only the passphrase is rejected after pairing (follows cryptographically from the KK pattern, C03).",
 		nil,
 		runC11)
 	register("C17",
